@@ -3,6 +3,7 @@
 //@import ohlcv.rs.tpl
 //@import indicator_base.rs.tpl
 //@include indicator_traits.rs
+//@export-begin
 
 // ---- positions: the element pushed by the k-th call (k = 0, 1, ...) has position k; `index` is the position of the NEXT push.
 // A window of length w whose next push has position k holds positions k-w .. k-1 (negative ones are the construction value).
@@ -375,6 +376,14 @@ impl Method for LowerReversalSignal {
 pub open spec fn reversal_parts(pre: &ReversalSignal, x: &ValueType, post: &ReversalSignal, out: &Action, lo: Action, hi: Action) -> bool {
 	LowerReversalSignal::step(&pre.low, x, &post.low, &lo) && UpperReversalSignal::step(&pre.high, x, &post.high, &hi) && sv(*out) == clamp255(sv(lo) - sv(hi))
 }
+impl ReversalSignal {
+// the inherent three-argument constructor (renamed: Verus resolves `new` in contracts to the trait fn)
+//@extract src/methods/reversal.rs impl[ReversalSignal]::new pub rename=new3
+	ensures r is Ok ==> r->Ok_0.inv() && ReversalSignal::fresh((left, right), value, &r->Ok_0),
+		(left == 0 || right == 0) ==> r is Err,
+//@replace Method::new((left, right), value) ==> <ReversalSignal as Method>::new((left, right), value)
+//@end
+}
 impl Method for ReversalSignal {
 	type Params = (PeriodType, PeriodType);
 	type Input = ValueType;
@@ -398,5 +407,6 @@ impl Method for ReversalSignal {
 //@replace self.low.next(value) - self.high.next(value) ==> { let lo__ = self.low.next(value); let hi__ = self.high.next(value); let d__ = lo__ - hi__; proof { assert(reversal_parts(old(self), value, self, &d__, lo__, hi__)); } d__ }
 //@end
 }
+//@export-end
 } // verus!
 fn main() {}
